@@ -26,18 +26,18 @@ func SetFinalizer(obj interface{}, finalizer interface{}) {
 	runtime.SetFinalizer(obj, finalizer)
 }
 
-func GOMAXPROCS(n int) int                        { return runtime.GOMAXPROCS(n) }
-func NumCPU() int                                 { return runtime.NumCPU() }
-func NumGoroutine() int                           { return runtime.NumGoroutine() }
-func GC()                                         { runtime.GC() }
-func KeepAlive(x interface{})                     { runtime.KeepAlive(x) }
+func GOMAXPROCS(n int) int                         { return runtime.GOMAXPROCS(n) }
+func NumCPU() int                                  { return runtime.NumCPU() }
+func NumGoroutine() int                            { return runtime.NumGoroutine() }
+func GC()                                          { runtime.GC() }
+func KeepAlive(x interface{})                      { runtime.KeepAlive(x) }
 func Caller(skip int) (uintptr, string, int, bool) { return runtime.Caller(skip + 1) }
-func Callers(skip int, pc []uintptr) int          { return runtime.Callers(skip+1, pc) }
-func Stack(buf []byte, all bool) int              { return runtime.Stack(buf, all) }
-func Goexit()                                     { runtime.Goexit() }
-func LockOSThread()                               { runtime.LockOSThread() }
-func UnlockOSThread()                             { runtime.UnlockOSThread() }
-func ReadMemStats(m *runtime.MemStats)            { runtime.ReadMemStats(m) }
+func Callers(skip int, pc []uintptr) int           { return runtime.Callers(skip+1, pc) }
+func Stack(buf []byte, all bool) int               { return runtime.Stack(buf, all) }
+func Goexit()                                      { runtime.Goexit() }
+func LockOSThread()                                { runtime.LockOSThread() }
+func UnlockOSThread()                              { runtime.UnlockOSThread() }
+func ReadMemStats(m *runtime.MemStats)             { runtime.ReadMemStats(m) }
 
 type MemStats = runtime.MemStats
 type Frames = runtime.Frames
